@@ -186,10 +186,11 @@ func c20Child(args []string) int {
 		var nextEvent int64
 		var doubles int64
 		type plan struct {
-			kind  string
-			topic string
-			fails []int
-			also  string // subscribe: when set the SAME request opens a second stream on this topic (second root field, through a fragment)
+			kind   string
+			topic  string
+			fails  []int
+			also   string // subscribe: when set the SAME request opens a second stream on this topic (second root field, through a fragment)
+			refuse bool   // with also: a third root field fails, the request is answered with an error and subscribes nobody
 		}
 		plans := make([][]plan, clients)
 		total := 0
@@ -207,6 +208,10 @@ func c20Child(args []string) int {
 						p.topic, p.fails = "*", []int{0, 1, 2}
 					} else if r.Intn(5) == 0 {
 						p.also = topics[r.Intn(len(topics))]
+						p.refuse = r.Intn(4) == 0
+						if p.refuse {
+							p.fails = nil
+						}
 					}
 				case x < 8:
 					p.kind = "publish"
@@ -256,11 +261,18 @@ func c20Child(args []string) int {
 							op2 = &c20Op{Client: ci, Kind: "subscribe", Topic: p.also, Sub: sid2}
 							text = `subscription { s1: listen(topic: "` + key + `|` + p.topic + `") { id n inner { v } } ...Two } fragment Two on Subscription { s2: listen(topic: "` + key2 + `|` + p.also + `") { id n inner { v } } }`
 							atomic.AddInt64(&doubles, 1)
+							if p.refuse {
+								text = strings.Replace(text, "...Two }", "...Two s3: fail(topic: \"x\") { id } }", 1)
+								op.Kind, op2.Kind = "subscribe-refused", "subscribe-refused"
+							}
 						}
 						op.Call = atomic.AddInt64(&clock, 1)
 						res := root.ResolveString(text, "", nil)
 						op.Ret = atomic.AddInt64(&clock, 1)
 						_, op.Err = res["errors"]
+						if p.refuse {
+							op.Err = !op.Err // for a refused request the anomaly is the absence of an error
+						}
 						if op2 != nil {
 							op2.Call, op2.Ret, op2.Err = op.Call, op.Ret, op.Err
 							ops[ci] = append(ops[ci], *op2)
@@ -327,6 +339,25 @@ func c20Child(args []string) int {
 			rep.Overlaps++
 		}
 		subOp := map[int]c20Op{}
+		refusedSub := map[int]bool{}
+		for _, o := range all {
+			if o.Kind == "subscribe-refused" {
+				refusedSub[o.Sub] = true
+				if o.Err {
+					viol("refused-subscription-without-error", fmt.Sprintf("the request that made subscriber %d had a failing root field but reported no error", o.Sub), nil)
+				}
+			}
+		}
+		for _, d := range dels {
+			if refusedSub[d.Sub] {
+				viol("delivery-to-refused-subscriber", fmt.Sprintf("subscriber %d received e%d although the request that made it was answered with an error", d.Sub, d.Event), nil)
+			}
+		}
+		for sid := range cleanups {
+			if refusedSub[sid] && len(cleanups[sid]) > 0 {
+				viol("cleanup-of-refused-subscriber", fmt.Sprintf("subscriber %d was never subscribed but cleaned up", sid), nil)
+			}
+		}
 		for _, o := range all {
 			if o.Kind == "subscribe" {
 				subOp[o.Sub] = o
@@ -463,6 +494,9 @@ func c20Child(args []string) int {
 		if !hasFailures {
 			var pops []porcupine.Operation
 			for _, o := range all {
+				if o.Kind == "subscribe-refused" {
+					continue // no effect on the registry
+				}
 				in := c20In{Kind: o.Kind, Topic: o.Topic, Sub: o.Sub}
 				out := c20Out{Count: o.Count}
 				if o.Kind == "publish" {
@@ -518,6 +552,9 @@ func (r *c20Root) Resolve(field *ggql.Field, args map[string]interface{}) (inter
 type c20Subs struct{ r *c20Root }
 
 func (s *c20Subs) Resolve(field *ggql.Field, args map[string]interface{}) (interface{}, error) {
+	if field.Name == "fail" {
+		return nil, fmt.Errorf("the application refuses this stream")
+	}
 	t, _ := args["topic"].(string)
 	parts := strings.SplitN(t, "|", 2)
 	s.r.mu.Lock()
